@@ -61,14 +61,14 @@ DECODER(dec_out)   // over the <= 6*L output units
 // ---------------------------------------------------------------------------------------------------------------
 // Observer streams (harness types for the Stream_T parameter).
 
-// Recogniser of (plain | entity)* over the emitted units, optionally decoding and comparing in lockstep with `expect`.
+// Recogniser of (plain | entity)* over the emitted units; optionally decodes on the fly and compares with decode(in).
 //   states: 0 idle | 1 "&" | 2 "&a" | 3 "&am" | 5 "&ap" | 6 "&apo" | 8 "&l","&g" | 9 entity body complete, ';' due
 //           12 "&q" | 13 "&qu" | 14 "&quo" | 16 reject (sticky)
 struct LangStream {
     using CharType = C;
     unsigned st{0};
     C pend{0};                                        // character denoted by the entity being read
-    const C *expect{nullptr}; unsigned n{0}, k{0}; bool same{true};
+    const C *expect{nullptr}; unsigned n{0}, k{0}; bool same{true};   // decode(in), compared in lockstep
     void emit(C d) { if (expect != nullptr) { if (k >= n || expect[k] != d) same = false; ++k; } }
     void operator+=(C c) {
         unsigned nx = 16;
@@ -178,12 +178,12 @@ extern "C" void h_lang() {
 extern "C" void h_dec() {
     const C *s = vf_buf<C>(L);
     C a[L + 1];
-    const unsigned na = dec_in(s, L, a);
+    const unsigned na = dec_in(s, L, a);       // reference decoding of the original string
     LangStream out; out.expect = a; out.n = na;
     StringUtils::EscapeHTMLSpecialChars(out, s, SizeT(L));
     vf_assert(out.st == 0, 1);                 // (decoding is only defined by the observer on its own language)
-    vf_assert(out.same, 2);
-    vf_assert(out.k == na, 3);
+    vf_assert(out.same, 2);                    // decode(out) is a prefix of decode(in), character by character
+    vf_assert(out.k == na, 3);                 // and has the same length
     vf_witness();
 }
 
